@@ -170,8 +170,10 @@ def cannot_raise(stmt):
     def simple_value(e):
         probe = ast.Expr(value=ast.Call(func=ast.Attribute(value=ast.Name(id='logger', ctx=ast.Load()), attr='debug', ctx=ast.Load()), args=[e], keywords=[]))
         return simple_noise(probe)
-    if isinstance(stmt, ast.Pass) or simple_noise(stmt):
+    if isinstance(stmt, (ast.Pass, ast.Import, ast.ImportFrom)) or simple_noise(stmt):
         return True
+    if isinstance(stmt, ast.Assign) and all(isinstance(t, ast.Name) for t in stmt.targets) and isinstance(stmt.value, (ast.Constant, ast.Name)):
+        return True                       # a local bound to a name or a literal
     if isinstance(stmt, ast.Assign) and all(isinstance(t, ast.Attribute) and isinstance(t.value, ast.Name) and t.value.id == 'self' for t in stmt.targets):
         return simple_value(stmt.value)
     if isinstance(stmt, ast.Expr) and isinstance(stmt.value, ast.Call) and isinstance(stmt.value.func, ast.Attribute) and isinstance(stmt.value.func.value, ast.Name) and \
